@@ -2,6 +2,7 @@ package main
 
 import (
 	"fmt"
+	"sort"
 	"strconv"
 	"strings"
 
@@ -368,4 +369,43 @@ func jumpTargetOnlyLeftovers(base, got *simDeps, c compiled) string {
 		}
 	}
 	return strings.Join(names, ",")
+}
+
+// cleanupResidue (stream `cleanup`, differential against Lean `cleanupResidue`): tables holding exactly what this
+// configuration installs, then the real NewIptablesConfigurator(...).Run() with CleanupOnly; what is left in one
+// family: number of rules, user chains still there.
+func cleanupResidue(c rawCfg, own compiled, v6 bool) []string {
+	sim := newSim()
+	if err := install(sim, false, own); err != nil {
+		return []string{"install-error", strings.ReplaceAll(err.Error(), " ", "_")}
+	}
+	cfg := c.config()
+	cfg.CleanupOnly = true
+	ipt, err := capture.NewIptablesConfigurator(cfg, sim)
+	if err != nil {
+		return []string{"configurator-error"}
+	}
+	if err := ipt.Run(); err != nil {
+		return []string{"run-error", strings.ReplaceAll(err.Error(), " ", "_")}
+	}
+	f := sim.v4
+	if v6 {
+		f = sim.v6
+	}
+	n := 0
+	var chains []string
+	for t, cs := range f.tables {
+		for ch, rs := range cs {
+			n += len(rs)
+			if !isBuiltin(t, ch) {
+				chains = append(chains, t+"/"+ch)
+			}
+		}
+	}
+	sort.Strings(chains)
+	names := "-"
+	if len(chains) > 0 {
+		names = strings.Join(chains, ",")
+	}
+	return []string{"left", strconv.Itoa(n), names}
 }
